@@ -162,11 +162,21 @@ impl<'tcx> Cx<'tcx> {
                     if let Some(vi) = d.variant {
                         let fields: Vec<String> =
                             d.fields.iter().map(|(fv, fty)| self.render_val(*fv, *fty).unwrap_or_else(|| "null".to_string())).collect();
+                        // keep the raw rendering next to it (a field-less enum held as a scalar, a zero-sized value)
+                        let raw = match v {
+                            ConstValue::Scalar(sc) => match sc.try_to_scalar_int() {
+                                Ok(int) => format!(",\"int\":{},\"bytes\":{}", int.to_bits(int.size()), int.size().bytes()),
+                                Err(_) => String::new(),
+                            },
+                            ConstValue::ZeroSized => ",\"zst\":true".to_string(),
+                            _ => String::new(),
+                        };
                         return Some(format!(
-                            "{{\"variant\":{},\"adt\":{},\"fields\":[{}]}}",
+                            "{{\"variant\":{},\"adt\":{},\"fields\":[{}]{}}}",
                             esc(adt.variant(vi).name.as_str()),
                             esc(&tcx.def_path_str(adt.did())),
-                            fields.join(",")
+                            fields.join(","),
+                            raw
                         ));
                     }
                 }
